@@ -5,40 +5,722 @@ import TemplVerif.Proofs.Html
 namespace TemplVerif.Proofs.Js
 open TemplVerif TemplVerif.Js TemplVerif.JsLex
 
-/-- In each of the three literal kinds, the replaced text followed by the closing quote lexes as ONE literal
-    whose value is the runes of the original string (invalid bytes as U+FFFD), leaving exactly `rest`. -/
-theorem replace_inliteral (q : Quote) (s rest : Bytes) :
-    lexString q (replace s ++ q.byte :: rest) = .ok (Utf8.runes s) rest := by
-  sorry
+/-! ### decodeRune facts -/
+theorem decodeRune_ascii (b0 : UInt8) (t : Bytes) (h : b0 < 0x80) :
+    Utf8.decodeRune (b0 :: t) = (b0.toNat, 1) := by
+  simp [Utf8.decodeRune, h]
 
-/-- The replaced text contains no `<` (cannot end the script element or open an HTML comment). -/
-theorem replace_no_lt (s : Bytes) : scriptDataSafe (replace s) = true := by
-  sorry
+theorem decodeRune_chunk_high (b0 : UInt8) (t : Bytes) (h : ¬ b0 < 0x80) :
+    ∀ b ∈ (b0 :: t).take (Utf8.decodeRune (b0 :: t)).2, ¬ b < 0x80 := by
+  rcases t with _ | ⟨b1, _ | ⟨b2, _ | ⟨b3, t3⟩⟩⟩ <;> simp only [Utf8.decodeRune] <;> (repeat' split) <;>
+    simp_all [Utf8.isCont, UInt8.le_iff_toNat_le, UInt8.lt_iff_toNat_lt] <;> omega
 
-/-- encoding/json's string output is one double-quoted JS literal with the original value. -/
-theorem jsonString_lex (s rest : Bytes) :
-    lexString .double ((jsonString s).drop 1 ++ rest) = .ok (Utf8.runes s) rest := by
-  sorry
+theorem range3_false (b0 b1 : UInt8) (h : ¬ Utf8.isCont b1 = true) :
+    ¬ ((if b0 = 224 then 160 else 128) ≤ b1 ∧ b1 ≤ if b0 = 237 then 159 else 191) := by
+  simp only [Utf8.isCont, Bool.and_eq_true, decide_eq_true_eq, UInt8.le_iff_toNat_le] at h ⊢
+  split <;> split <;> simp <;> (try simp at h) <;> omega
 
-theorem jsonString_safe (s : Bytes) :
-    (60 : UInt8) ∉ jsonString s ∧ (62 : UInt8) ∉ jsonString s ∧ (38 : UInt8) ∉ jsonString s := by
-  sorry
+theorem range4_false (b0 b1 : UInt8) (h : ¬ Utf8.isCont b1 = true) :
+    ¬ ((if b0 = 240 then 144 else 128) ≤ b1 ∧ b1 ≤ if b0 = 244 then 143 else 191) := by
+  simp only [Utf8.isCont, Bool.and_eq_true, decide_eq_true_eq, UInt8.le_iff_toNat_le] at h ⊢
+  split <;> split <;> simp <;> (try simp at h) <;> omega
 
-theorem jsonEncode_safe (v : JVal) (h : numbersSafe v = true) :
-    (60 : UInt8) ∉ jsonEncode v ∧ (62 : UInt8) ∉ jsonEncode v ∧ (38 : UInt8) ∉ jsonEncode v := by
-  sorry
+theorem decodeRune_takeWhile (b0 : UInt8) (t : Bytes) :
+    Utf8.decodeRune (b0 :: t) = Utf8.decodeRune (b0 :: t.takeWhile Utf8.isCont) := by
+  rcases t with _ | ⟨b1, _ | ⟨b2, _ | ⟨b3, t3⟩⟩⟩
+  · rfl
+  · by_cases h1 : Utf8.isCont b1 = true <;> simp [List.takeWhile, h1, Utf8.decodeRune]
+  · by_cases h1 : Utf8.isCont b1 = true <;> by_cases h2 : Utf8.isCont b2 = true <;>
+     simp [List.takeWhile, h1, h2, Utf8.decodeRune, range3_false b0 b1]
+  · by_cases h1 : Utf8.isCont b1 = true <;> by_cases h2 : Utf8.isCont b2 = true <;>
+     by_cases h3 : Utf8.isCont b3 = true <;>
+     simp [List.takeWhile, h1, h2, h3, Utf8.decodeRune, range3_false b0 b1, range4_false b0 b1]
 
-/-- The attribute form has no double quote and HTML-decodes to the inline form. -/
-theorem safeScript_no_quote (fn : Bytes) (ps : List Param) : (34 : UInt8) ∉ safeScript fn ps := by
-  sorry
+theorem dr2 (b0 b1 : UInt8) (t1 : Bytes) (c1 : ¬ b0 < 0x80) (c2 : ¬ b0 < 0xC2) (c3 : b0 < 0xE0) :
+  Utf8.decodeRune (b0 :: b1 :: t1) =
+        if Utf8.isCont b1 = true then ((b0.toNat - 0xC0) * 64 + (b1.toNat - 0x80), 2) else (Utf8.runeError, 1) := by
+  simp only [Utf8.decodeRune, c1, c2, c3, if_true, if_false]
 
-theorem safeScript_decodes (fn : Bytes) (ps : List Param) :
-    Html.decodeRefs (safeScript fn ps) = safeScriptInline fn ps := by
-  sorry
+theorem dr3 (b0 b1 b2 : UInt8) (t2 : Bytes) (c1 : ¬ b0 < 0x80) (c2 : ¬ b0 < 0xC2) (c3 : ¬ b0 < 0xE0) (c4 : b0 < 0xF0) :
+  Utf8.decodeRune (b0 :: b1 :: b2 :: t2) =
+        if ((if b0 == 0xE0 then 0xA0 else 0x80) ≤ b1 && b1 ≤ (if b0 == 0xED then 0x9F else 0xBF) && Utf8.isCont b2) = true then
+          ((b0.toNat - 0xE0) * 4096 + (b1.toNat - 0x80) * 64 + (b2.toNat - 0x80), 3)
+        else (Utf8.runeError, 1) := by
+  simp only [Utf8.decodeRune, c1, c2, c3, c4, if_true, if_false]
+
+theorem dr4 (b0 b1 b2 b3 : UInt8) (t3 : Bytes) (c1 : ¬ b0 < 0x80) (c2 : ¬ b0 < 0xC2) (c3 : ¬ b0 < 0xE0) (c4 : ¬ b0 < 0xF0)
+    (c5 : b0 < 0xF5) :
+  Utf8.decodeRune (b0 :: b1 :: b2 :: b3 :: t3) =
+        if ((if b0 == 0xF0 then 0x90 else 0x80) ≤ b1 && b1 ≤ (if b0 == 0xF4 then 0x8F else 0xBF) && Utf8.isCont b2 && Utf8.isCont b3) = true then
+          ((b0.toNat - 0xF0) * 262144 + (b1.toNat - 0x80) * 4096 + (b2.toNat - 0x80) * 64 + (b3.toNat - 0x80), 4)
+        else (Utf8.runeError, 1) := by
+  simp only [Utf8.decodeRune, c1, c2, c3, c4, c5, if_true, if_false]
+
+theorem decodeRune_take_valid (b0 : UInt8) (t X : Bytes) (r w : Nat)
+    (h : Utf8.decodeRune (b0 :: t) = (r, w)) (hv : ¬ (r = Utf8.runeError ∧ w ≤ 1)) :
+    Utf8.decodeRune ((b0 :: t).take w ++ X) = (r, w) := by
+  have bad : ∀ {P : Prop}, (Utf8.runeError, 1) = (r, w) → P := by
+    intro P e
+    injection e with e1 e2
+    exact absurd ⟨e1.symm, by omega⟩ hv
+  by_cases c1 : b0 < 0x80
+  · simp [Utf8.decodeRune, c1] at h
+    obtain ⟨rfl, rfl⟩ := h
+    simp [Utf8.decodeRune, c1]
+  by_cases c2 : b0 < 0xC2
+  · simp [Utf8.decodeRune, c1, c2] at h
+    exact bad (by simp [h])
+  by_cases c3 : b0 < 0xE0
+  · rcases t with _ | ⟨b1, t1⟩
+    · simp [Utf8.decodeRune, c1, c2, c3] at h
+      exact bad (by simp [h])
+    · rw [dr2 b0 b1 t1 c1 c2 c3] at h
+      by_cases hc : Utf8.isCont b1 = true
+      · rw [if_pos hc] at h
+        obtain ⟨h1, h2⟩ := Prod.mk.inj h
+        subst h2
+        have e : List.take 2 (b0 :: b1 :: t1) ++ X = b0 :: b1 :: X := rfl
+        rw [e, dr2 b0 b1 X c1 c2 c3, if_pos hc, h1]
+      · rw [if_neg hc] at h; exact bad h
+  by_cases c4 : b0 < 0xF0
+  · rcases t with _ | ⟨b1, _ | ⟨b2, t2⟩⟩
+    · simp [Utf8.decodeRune, c1, c2, c3, c4] at h
+      exact bad (by simp [h])
+    · simp [Utf8.decodeRune, c1, c2, c3, c4] at h
+      exact bad (by simp [h])
+    · rw [dr3 b0 b1 b2 t2 c1 c2 c3 c4] at h
+      by_cases hc : ((if b0 == 0xE0 then 0xA0 else 0x80) ≤ b1 && b1 ≤ (if b0 == 0xED then 0x9F else 0xBF) && Utf8.isCont b2) = true
+      · rw [if_pos hc] at h
+        obtain ⟨h1, h2⟩ := Prod.mk.inj h
+        subst h2
+        have e : List.take 3 (b0 :: b1 :: b2 :: t2) ++ X = b0 :: b1 :: b2 :: X := rfl
+        rw [e, dr3 b0 b1 b2 X c1 c2 c3 c4, if_pos hc, h1]
+      · rw [if_neg hc] at h; exact bad h
+  by_cases c5 : b0 < 0xF5
+  · rcases t with _ | ⟨b1, _ | ⟨b2, _ | ⟨b3, t3⟩⟩⟩
+    · simp [Utf8.decodeRune, c1, c2, c3, c4, c5] at h
+      exact bad (by simp [h])
+    · simp [Utf8.decodeRune, c1, c2, c3, c4, c5] at h
+      exact bad (by simp [h])
+    · simp [Utf8.decodeRune, c1, c2, c3, c4, c5] at h
+      exact bad (by simp [h])
+    · rw [dr4 b0 b1 b2 b3 t3 c1 c2 c3 c4 c5] at h
+      by_cases hc : ((if b0 == 0xF0 then 0x90 else 0x80) ≤ b1 && b1 ≤ (if b0 == 0xF4 then 0x8F else 0xBF) && Utf8.isCont b2 && Utf8.isCont b3) = true
+      · rw [if_pos hc] at h
+        obtain ⟨h1, h2⟩ := Prod.mk.inj h
+        subst h2
+        have e : List.take 4 (b0 :: b1 :: b2 :: b3 :: t3) ++ X = b0 :: b1 :: b2 :: b3 :: X := rfl
+        rw [e, dr4 b0 b1 b2 b3 X c1 c2 c3 c4 c5, if_pos hc, h1]
+      · rw [if_neg hc] at h; exact bad h
+  · simp [Utf8.decodeRune, c1, c2, c3, c4, c5] at h
+    exact bad (by simp [h])
+
+/-! ### escape sequences and the tables -/
+theorem hex4_some (a b c d : UInt8) (X : Bytes) (v : Nat) (R : Bytes) (h : hex4 (a :: b :: c :: d :: X) = some (v, R)) :
+    ∃ w x y z, hexVal a = some w ∧ hexVal b = some x ∧ hexVal c = some y ∧ hexVal d = some z ∧
+      v = ((w * 16 + x) * 16 + y) * 16 + z ∧ R = X := by
+  simp only [hex4] at h
+  cases ha : hexVal a <;> simp [ha] at h
+  cases hb : hexVal b <;> simp [hb] at h
+  cases hc : hexVal c <;> simp [hc] at h
+  cases hd : hexVal d <;> simp [hd] at h
+  exact ⟨_, _, _, _, rfl, rfl, rfl, rfl, h.1.symm, h.2.symm⟩
+
+theorem hexVal_ne (a : UInt8) (w : Nat) (h : hexVal a = some w) : a ≠ 123 ∧ a ≠ 60 ∧ a ≠ 62 ∧ a ≠ 38 := by
+  refine ⟨?_, ?_, ?_, ?_⟩ <;> (intro e; subst e; simp [hexVal] at h)
+
+theorem escape_u4 (a b c d : UInt8) (r : Nat) (h : hex4 [a, b, c, d] = some (r, [])) (X : Bytes) :
+    escape (117 :: a :: b :: c :: d :: X) = some (some r, X) := by
+  obtain ⟨w, x, y, z, ha, hb, hc, hd, hv, _⟩ := hex4_some a b c d [] r [] h
+  have hne : a ≠ 123 := (hexVal_ne a w ha).1
+  have h4 : hex4 (a :: b :: c :: d :: X) = some (r, X) := by
+    simp [hex4, ha, hb, hc, hd, hv]
+  simp only [escape, Utf8.decodeRune]
+  simp
+  split
+  · rename_i heq; simp at heq; exact absurd heq.1 hne
+  · simp [h4]
+
+/-- Shape check for an escape sequence standing for rune `r`. -/
+def escOK (r : Nat) : Bytes → Bool
+  | [92, 117, a, b, c, d] => hex4 [a, b, c, d] == some (r, [])
+  | [92, c] => (c == 116 && r == 9) || (c == 110 && r == 10) || (c == 102 && r == 12) || (c == 114 && r == 13)
+      || (c == 92 && r == 92) || (c == 47 && r == 47) || (c == 34 && r == 34) || (c == 98 && r == 8)
+  | _ => false
+
+theorem escOK_sound (r : Nat) (rp : Bytes) (h : escOK r rp = true) :
+    ∃ body, rp = 92 :: body ∧ (∀ X, escape (body ++ X) = some (some r, X)) ∧
+      (60 : UInt8) ∉ rp ∧ (62 : UInt8) ∉ rp ∧ (38 : UInt8) ∉ rp := by
+  unfold escOK at h
+  split at h
+  · rename_i a b c d
+    simp only [beq_iff_eq] at h
+    obtain ⟨w, x, y, z, ha, hb, hc, hd, _, _⟩ := hex4_some a b c d [] r [] h
+    have na := hexVal_ne a w ha
+    have nb := hexVal_ne b x hb
+    have nc := hexVal_ne c y hc
+    have nd := hexVal_ne d z hd
+    refine ⟨[117, a, b, c, d], rfl, fun X => escape_u4 a b c d r h X, ?_, ?_, ?_⟩ <;>
+      simp [Ne.symm na.2.1, Ne.symm na.2.2.1, Ne.symm na.2.2.2, Ne.symm nb.2.1, Ne.symm nb.2.2.1, Ne.symm nb.2.2.2,
+        Ne.symm nc.2.1, Ne.symm nc.2.2.1, Ne.symm nc.2.2.2, Ne.symm nd.2.1, Ne.symm nd.2.2.1, Ne.symm nd.2.2.2]
+  · rename_i c
+    simp only [Bool.or_eq_true, Bool.and_eq_true, beq_iff_eq] at h
+    rcases h with ((((((h | h) | h) | h) | h) | h) | h) | h <;> obtain ⟨rfl, rfl⟩ := h <;>
+      exact ⟨_, rfl, fun X => by simp [escape, Utf8.decodeRune], by decide, by decide, by decide⟩
+  · simp at h
+
+def replCheck (r : Nat) : Bool :=
+  match replRune r with
+  | some rp => escOK r rp
+  | none => r != 39 && r != 34 && r != 96 && r != 92 && r != 36 && r != 10 && r != 13 && r != 60
+
+theorem replCheck_range : (List.range 128).all replCheck = true := by decide
+
+theorem replCheck_low (r : Nat) (h : r < 128) : replCheck r = true :=
+  List.all_eq_true.mp replCheck_range r (List.mem_range.mpr h)
+
+theorem replCheck_all (r : Nat) : replCheck r = true := by
+  by_cases h : r < 128
+  · exact replCheck_low r h
+  by_cases e1 : r = 0x2028
+  · subst e1; decide
+  by_cases e2 : r = 0x2029
+  · subst e2; decide
+  have l1 : Generated.lowUnicodeReplacementTable.length = 32 := rfl
+  have l2 : Generated.jsStrReplacementTable.length = 97 := rfl
+  have h1 : ¬ r < 32 := by omega
+  have h2 : ¬ r < 97 := by omega
+  have hn : replRune r = none := by
+    unfold replRune
+    rw [l1, l2]
+    simp [h1, h2, e1, e2]
+  simp only [replCheck, hn]
+  simp
+  omega
+
+theorem replRune_some (r : Nat) (rp : Bytes) (h : replRune r = some rp) : escOK r rp = true := by
+  have := replCheck_all r
+  simpa [replCheck, h] using this
+
+theorem replRune_none (r : Nat) (h : replRune r = none) :
+    r ≠ 39 ∧ r ≠ 34 ∧ r ≠ 96 ∧ r ≠ 92 ∧ r ≠ 36 ∧ r ≠ 10 ∧ r ≠ 13 ∧ r ≠ 60 := by
+  have := replCheck_all r
+  simp [replCheck, h] at this
+  omega
+
+/-! ### one-step equations -/
+theorem replaceAux_step (f : Nat) (b0 : UInt8) (t : Bytes) :
+    replaceAux (f+1) (b0 :: t) =
+      (match replRune (Utf8.decodeRune (b0::t)).1 with
+        | some rp => rp
+        | none => (b0::t).take (max (Utf8.decodeRune (b0::t)).2 1))
+      ++ replaceAux f ((b0::t).drop (max (Utf8.decodeRune (b0::t)).2 1)) := rfl
+
+theorem runesAux_step (f : Nat) (b0 : UInt8) (t : Bytes) :
+    Utf8.runesAux (f+1) (b0 :: t) =
+      (Utf8.decodeRune (b0::t)).1 :: Utf8.runesAux f ((b0::t).drop (max (Utf8.decodeRune (b0::t)).2 1)) := rfl
+
+theorem replaceAux_nil (f : Nat) : replaceAux f [] = [] := by cases f <;> rfl
+theorem runesAux_nil (f : Nat) : Utf8.runesAux f [] = [] := by cases f <;> rfl
+
+theorem lexAux_quote (q : Quote) (f : Nat) (acc : List Nat) (rest : Bytes) :
+    lexAux q (f+1) acc (q.byte :: rest) = .ok acc rest := by
+  cases q <;> simp [lexAux, Utf8.decodeRune, Quote.byte]
+
+theorem lexAux_bs (q : Quote) (f : Nat) (acc : List Nat) (Z : Bytes) (r : Nat) (Z' : Bytes)
+    (he : escape Z = some (some r, Z')) (hl : Z'.length < Z.length + 1) :
+    lexAux q (f+1) acc (92 :: Z) = lexAux q f (acc ++ [r]) Z' := by
+  cases q <;> simp [lexAux, Utf8.decodeRune, Quote.byte, he, hl]
+
+theorem lexAux_plain (q : Quote) (f : Nat) (acc : List Nat) (b0 : UInt8) (t : Bytes) (r w : Nat)
+    (hd : Utf8.decodeRune (b0 :: t) = (r, w))
+    (h1 : r ≠ 39) (h2 : r ≠ 34) (h3 : r ≠ 96) (h4 : r ≠ 92) (h5 : r ≠ 36) (h6 : r ≠ 10) (h7 : r ≠ 13) :
+    lexAux q (f+1) acc (b0 :: t) = lexAux q f (acc ++ [r]) ((b0 :: t).drop (max w 1)) := by
+  simp only [lexAux, hd]
+  cases q <;> simp [Quote.byte, h1, h2, h3, h4, h5, h6, h7]
+
+/-! ### function names -/
+theorem isStart_isCont (b : UInt8) (h : isStart b = true) : isCont b = true := by
+  simp [isCont, h]
+
+theorem fnStep_bytes (st : Nat) (b : UInt8) (st' : Nat) (h : fnStep st b = some st') :
+    isCont b = true ∨ b = 46 := by
+  unfold fnStep at h
+  split at h
+  · split at h
+    · exact Or.inl (isStart_isCont b ‹_›)
+    · simp at h
+  · split at h
+    · exact Or.inl ‹_›
+    · simp at h
+  · split at h
+    · exact Or.inl ‹_›
+    · split at h
+      · right; simpa using ‹(b == 46) = true›
+      · simp at h
+  · split at h
+    · exact Or.inl (isStart_isCont b ‹_›)
+    · simp at h
+
+theorem fnRun_bytes (n : Bytes) : ∀ (st st' : Nat), fnRun st n = some st' →
+    ∀ b ∈ n, isCont b = true ∨ b = 46 := by
+  induction n with
+  | nil => intro _ _ _ b hb; simp at hb
+  | cons c rest ih =>
+    intro st st' h b hb
+    simp only [fnRun] at h
+    cases hs : fnStep st c with
+    | none => simp [hs] at h
+    | some st1 =>
+      simp only [hs, Option.bind_some] at h
+      simp only [List.mem_cons] at hb
+      rcases hb with hb | hb
+      · subst hb; exact fnStep_bytes st b st1 hs
+      · exact ih st1 st' h b hb
 
 /-- A name accepted by the recogniser consists of `$ _ . A-Z a-z 0-9` only. -/
 theorem validFunctionName_bytes (n : Bytes) (h : validFunctionName n = true) :
     ∀ b ∈ n, isCont b = true ∨ b = 46 := by
-  sorry
+  unfold validFunctionName at h
+  cases hr : fnRun 0 n with
+  | none => simp [hr] at h
+  | some st => exact fnRun_bytes n 0 st hr
+
+/-! ### safeScript -/
+theorem intercalate_no_quote (l : List Bytes) (h : ∀ x ∈ l, (34 : UInt8) ∉ x) :
+    (34 : UInt8) ∉ intercalateComma l := by
+  induction l with
+  | nil => simp [intercalateComma]
+  | cons x xs ih =>
+    cases xs with
+    | nil => simpa [intercalateComma] using h x (by simp)
+    | cons y ys =>
+      have h1 := h x (by simp)
+      have h2 := ih (fun z hz => h z (by simp [hz]))
+      simp only [intercalateComma, List.mem_append, not_or]
+      exact ⟨⟨h1, by decide⟩, h2⟩
+
+theorem escape_no_quote (s : Bytes) : (34 : UInt8) ∉ Html.escape s := by
+  intro h
+  have := Html.escape_noStructural s 34 h
+  simp [Html.structural] at this
+
+/-- The attribute form has no double quote and HTML-decodes to the inline form. -/
+theorem safeScript_no_quote (fn : Bytes) (ps : List Param) : (34 : UInt8) ∉ safeScript fn ps := by
+  unfold safeScript
+  simp only [List.mem_append, not_or]
+  refine ⟨⟨⟨escape_no_quote _, by decide⟩, ?_⟩, by decide⟩
+  apply intercalate_no_quote
+  intro x hx
+  simp only [List.mem_map] at hx
+  obtain ⟨p, _, rfl⟩ := hx
+  exact escape_no_quote _
+
+theorem decodeRefs_cons_ne (b : UInt8) (hb : b ≠ 38) (rest : Bytes) :
+    Html.decodeRefs (b :: rest) = b :: Html.decodeRefs rest := by
+  rw [Html.decodeRefs]
+  all_goals (intros; simp_all)
+
+theorem decode_intercalate (l : List Bytes) (R : Bytes) :
+    Html.decodeRefs (intercalateComma (l.map Html.escape) ++ R) = intercalateComma l ++ Html.decodeRefs R := by
+  induction l with
+  | nil => simp [intercalateComma]
+  | cons x xs ih =>
+    cases xs with
+    | nil => simp [intercalateComma, Html.decode_escape_append]
+    | cons y ys =>
+      simp only [List.map_cons, intercalateComma, List.append_assoc] at ih ⊢
+      rw [Html.decode_escape_append]
+      simp only [List.cons_append, List.nil_append]
+      rw [decodeRefs_cons_ne 44 (by decide), ih]
+
+theorem safeScript_decodes (fn : Bytes) (ps : List Param) :
+    Html.decodeRefs (safeScript fn ps) = safeScriptInline fn ps := by
+  unfold safeScript safeScriptInline
+  simp only [List.append_assoc]
+  rw [Html.decode_escape_append]
+  simp only [List.cons_append, List.nil_append]
+  rw [decodeRefs_cons_ne 40 (by decide)]
+  have : (ps.map fun p => Html.escape (paramText p)) = (ps.map paramText).map Html.escape := by
+    simp [List.map_map]
+  rw [this, decode_intercalate, decodeRefs_cons_ne 41 (by decide)]
+  simp [Html.decodeRefs]
+
+
+theorem decodeRune_width (b0 : UInt8) (t : Bytes) :
+    1 ≤ (Utf8.decodeRune (b0 :: t)).2 ∧ (Utf8.decodeRune (b0 :: t)).2 ≤ (b0 :: t).length := by
+  rcases t with _ | ⟨b1, _ | ⟨b2, _ | ⟨b3, t3⟩⟩⟩ <;> simp only [Utf8.decodeRune] <;> (repeat' split) <;> simp
+
+theorem decodeRune_cont (a : UInt8) (u : Bytes) (h : Utf8.isCont a = true) :
+    Utf8.decodeRune (a :: u) = (Utf8.runeError, 1) := by
+  simp [Utf8.isCont, UInt8.le_iff_toNat_le] at h
+  have c1 : ¬ a < 0x80 := by simp [UInt8.lt_iff_toNat_lt]; omega
+  have c2 : a < 0xC2 := by simp [UInt8.lt_iff_toNat_lt]; omega
+  simp [Utf8.decodeRune, c1, c2]
+
+theorem replRune_runeError : replRune Utf8.runeError = none := by decide
+
+theorem quote_not_cont (q : Quote) : Utf8.isCont q.byte = false := by cases q <;> decide
+
+theorem takeWhile_append_congr {α} (p : α → Bool) (a Z Z' : List α) (h : Z.takeWhile p = Z'.takeWhile p) :
+    (a ++ Z).takeWhile p = (a ++ Z').takeWhile p := by
+  induction a with
+  | nil => simpa using h
+  | cons x xs ih => simp only [List.cons_append, List.takeWhile_cons, ih]
+
+/-- Leading continuation bytes are copied unchanged, and what follows them in the output is not a
+    continuation byte. -/
+theorem takeWhile_replaceAux (Y : Bytes) (hY : Y.takeWhile Utf8.isCont = []) (s : Bytes) :
+    ∀ g, s.length ≤ g → (replaceAux g s ++ Y).takeWhile Utf8.isCont = s.takeWhile Utf8.isCont := by
+  induction s with
+  | nil => intro g _; simp [replaceAux_nil, hY]
+  | cons a u ih =>
+    intro g hg
+    obtain ⟨g', rfl⟩ : ∃ g', g = g' + 1 := ⟨g - 1, by simp at hg; omega⟩
+    rw [replaceAux_step]
+    by_cases ha : Utf8.isCont a = true
+    · rw [decodeRune_cont a u ha]
+      simp only [replRune_runeError]
+      have : max 1 1 = 1 := rfl
+      simp only [this, List.take_succ_cons, List.take_zero, List.drop_succ_cons, List.drop_zero,
+        List.cons_append, List.nil_append, List.takeWhile_cons, ha, if_true]
+      rw [ih g' (by simpa using hg)]
+    · simp only [List.takeWhile_cons, ha]
+      have hw := decodeRune_width a u
+      cases hr : replRune (Utf8.decodeRune (a :: u)).1 with
+      | some rp =>
+        obtain ⟨body, rfl, _⟩ := escOK_sound _ rp (replRune_some _ rp hr)
+        simp [List.takeWhile_cons]
+        decide
+      | none =>
+        have : max (Utf8.decodeRune (a :: u)).2 1 = (Utf8.decodeRune (a :: u)).2 - 1 + 1 := by omega
+        simp only [this, List.take_succ_cons, List.cons_append, List.takeWhile_cons, ha]
+        simp
+
+/-! ### `replace`: re-lexing the output gives the runes of the input (any byte string) -/
+theorem lex_replace_aux (q : Quote) (rest : Bytes) : ∀ n (s : Bytes), s.length ≤ n →
+    ∀ f1 f2 f3 acc, s.length ≤ f1 → s.length ≤ f2 → (replaceAux f1 s ++ q.byte :: rest).length < f3 →
+    lexAux q f3 acc (replaceAux f1 s ++ q.byte :: rest) = .ok (acc ++ Utf8.runesAux f2 s) rest := by
+  intro n
+  induction n with
+  | zero =>
+    intro s hs f1 f2 f3 acc _ _ h3
+    have : s = [] := List.length_eq_zero_iff.mp (by omega)
+    subst this
+    obtain ⟨g3, rfl⟩ : ∃ g, f3 = g + 1 := ⟨f3 - 1, by omega⟩
+    simp [replaceAux_nil, runesAux_nil, lexAux_quote]
+  | succ m ih =>
+    intro s hs f1 f2 f3 acc h1 h2 h3
+    rcases s with _ | ⟨b0, t⟩
+    · obtain ⟨g3, rfl⟩ : ∃ g, f3 = g + 1 := ⟨f3 - 1, by omega⟩
+      simp [replaceAux_nil, runesAux_nil, lexAux_quote]
+    · simp only [List.length_cons] at hs h1 h2
+      obtain ⟨g1, rfl⟩ : ∃ g, f1 = g + 1 := ⟨f1 - 1, by omega⟩
+      obtain ⟨g2, rfl⟩ : ∃ g, f2 = g + 1 := ⟨f2 - 1, by omega⟩
+      obtain ⟨g3, rfl⟩ : ∃ g, f3 = g + 1 := ⟨f3 - 1, by omega⟩
+      have hw := decodeRune_width b0 t
+      rw [replaceAux_step] at h3 ⊢
+      rw [runesAux_step]
+      generalize hd : Utf8.decodeRune (b0 :: t) = d at *
+      obtain ⟨r, w⟩ := d
+      simp only [List.length_cons] at hw
+      have hmax : max w 1 = w := by omega
+      simp only [hmax] at h3 ⊢
+      have hlen' : ((b0 :: t).drop w).length = t.length + 1 - w := by simp
+      have hlen : ((b0 :: t).drop w).length ≤ m := by omega
+      cases hr : replRune r with
+      | some rp =>
+        simp only [hr] at h3 ⊢
+        obtain ⟨body, rfl, hesc, _⟩ := escOK_sound r rp (replRune_some r rp hr)
+        simp only [List.cons_append, List.append_assoc, List.length_cons, List.length_append] at h3 ⊢
+        rw [lexAux_bs q g3 acc _ r _ (hesc _) (by simp; omega)]
+        rw [ih _ hlen g1 g2 g3 (acc ++ [r]) (by omega) (by omega) (by simp; omega)]
+        simp
+      | none =>
+        simp only [hr] at h3 ⊢
+        have htk : List.take w (b0 :: t) = b0 :: List.take (w - 1) t := by
+          obtain ⟨k, rfl⟩ : ∃ k, w = k + 1 := ⟨w - 1, by omega⟩
+          simp
+        have hdr : List.drop w (b0 :: t) = List.drop (w - 1) t := by
+          obtain ⟨k, rfl⟩ : ∃ k, w = k + 1 := ⟨w - 1, by omega⟩
+          simp
+        have hdec : Utf8.decodeRune (List.take w (b0 :: t) ++ replaceAux g1 (List.drop w (b0 :: t)) ++ q.byte :: rest)
+            = (r, w) := by
+          rw [htk, hdr, List.cons_append, List.cons_append, decodeRune_takeWhile, List.append_assoc,
+            takeWhile_append_congr Utf8.isCont _ _ (List.drop (w - 1) t)
+              (takeWhile_replaceAux (q.byte :: rest) (by simp [quote_not_cont]) _ g1
+                (by rw [← hdr]; omega)),
+            List.take_append_drop, ← decodeRune_takeWhile, hd]
+        obtain ⟨n1, n2, n3, n4, n5, n6, n7, _⟩ := replRune_none r hr
+        have hcons : List.take w (b0 :: t) ++ replaceAux g1 (List.drop w (b0 :: t)) ++ q.byte :: rest
+            = b0 :: (List.take (w - 1) t ++ replaceAux g1 (List.drop w (b0 :: t)) ++ q.byte :: rest) := by
+          rw [htk]; simp
+        rw [hcons] at hdec
+        have hl : (List.take w (b0 :: t)).length = w := by simp; omega
+        rw [hcons, lexAux_plain q g3 acc b0 _ r w hdec n1 n2 n3 n4 n5 n6 n7, ← hcons, hmax,
+          List.append_assoc, List.drop_left' hl]
+        rw [ih _ hlen g1 g2 g3 (acc ++ [r]) (by omega) (by omega)
+          (by simp only [List.length_append, List.length_cons, hl] at h3 ⊢; omega)]
+        simp
+
+/-- In each of the three literal kinds, the replaced text followed by the closing quote lexes as ONE literal
+    whose value is the runes of the original string (invalid bytes as U+FFFD), leaving exactly `rest`. -/
+theorem replace_inliteral (q : Quote) (s rest : Bytes) :
+    lexString q (replace s ++ q.byte :: rest) = .ok (Utf8.runes s) rest := by
+  unfold lexString replace Utf8.runes
+  have := lex_replace_aux q rest s.length s (Nat.le_refl _) s.length s.length
+    ((replaceAux s.length s ++ q.byte :: rest).length + 1) [] (Nat.le_refl _) (Nat.le_refl _) (Nat.lt_succ_self _)
+  simpa using this
+
+theorem replaceAux_no_lt : ∀ (f : Nat) (s : Bytes), (60 : UInt8) ∉ replaceAux f s := by
+  intro f
+  induction f with
+  | zero => intro s; simp [replaceAux]
+  | succ f ih =>
+    intro s
+    rcases s with _ | ⟨b0, t⟩
+    · simp [replaceAux]
+    · rw [replaceAux_step]
+      simp only [List.mem_append, not_or]
+      refine ⟨?_, ih _⟩
+      cases hr : replRune (Utf8.decodeRune (b0 :: t)).1 with
+      | some rp =>
+        obtain ⟨body, _, _, h60, _⟩ := escOK_sound _ rp (replRune_some _ rp hr)
+        exact h60
+      | none =>
+        have hw := decodeRune_width b0 t
+        have hmax : max (Utf8.decodeRune (b0 :: t)).2 1 = (Utf8.decodeRune (b0 :: t)).2 := by omega
+        simp only [hmax]
+        by_cases c1 : b0 < 0x80
+        · rw [decodeRune_ascii b0 t c1] at hr ⊢
+          have := (replRune_none _ hr).2.2.2.2.2.2.2
+          simp only [List.take_succ_cons, List.take_zero, List.mem_singleton]
+          intro e; subst e; exact this rfl
+        · intro hm
+          exact decodeRune_chunk_high b0 t c1 60 hm (by decide)
+
+/-- The replaced text contains no `<` (cannot end the script element or open an HTML comment). -/
+theorem replace_no_lt (s : Bytes) : scriptDataSafe (replace s) = true := by
+  simp [scriptDataSafe, replace, replaceAux_no_lt]
+
+/-! ### encoding/json strings -/
+theorem jsonBody_step (f : Nat) (b0 : UInt8) (t : Bytes) :
+    jsonStringBodyAux (f+1) (b0 :: t) =
+      jsonRune (Utf8.decodeRune (b0::t)).1 ((b0::t).take (max (Utf8.decodeRune (b0::t)).2 1))
+        ((Utf8.decodeRune (b0::t)).1 == Utf8.runeError && decide ((Utf8.decodeRune (b0::t)).2 ≤ 1))
+      ++ jsonStringBodyAux f ((b0::t).drop (max (Utf8.decodeRune (b0::t)).2 1)) := rfl
+
+theorem jsonBody_nil (f : Nat) : jsonStringBodyAux f [] = [] := by cases f <;> rfl
+
+def jsonLowCheck (r : Nat) : Bool :=
+  !(r < 0x20 || r == 60 || r == 62 || r == 38) ||
+    escOK r [92, 117, 48, 48, hexDigitLower (r / 16), hexDigitLower (r % 16)]
+
+theorem jsonLowCheck_range : (List.range 64).all jsonLowCheck = true := by decide
+
+theorem jsonRune_cases (r : Nat) (raw : Bytes) (invalid : Bool) (hi : invalid = true → r = Utf8.runeError) :
+    escOK r (jsonRune r raw invalid) = true ∨
+    (jsonRune r raw invalid = raw ∧ invalid = false ∧ 0x20 ≤ r ∧ r ≠ 34 ∧ r ≠ 92 ∧ r ≠ 60 ∧ r ≠ 62 ∧ r ≠ 38) := by
+  unfold jsonRune
+  split
+  · left; rw [hi ‹_›]; decide
+  split
+  · left; rename_i e; simp at e; subst e; decide
+  split
+  · left; rename_i e; simp at e; subst e; decide
+  split
+  · left; rename_i e; simp at e; subst e; decide
+  split
+  · left; rename_i e; simp at e; subst e; decide
+  split
+  · left; rename_i e; simp at e; subst e; decide
+  split
+  · left; rename_i e; simp at e; subst e; decide
+  split
+  · left; rename_i e; simp at e; subst e; decide
+  split
+  · left
+    rename_i e
+    have hr : r < 64 := by simp at e; omega
+    have := List.all_eq_true.mp jsonLowCheck_range r (List.mem_range.mpr hr)
+    simp only [jsonLowCheck, Bool.or_eq_true, Bool.not_eq_true'] at this
+    rcases this with h | h
+    · rw [h] at e; simp at e
+    · exact h
+  split
+  · left; rename_i e; simp at e; subst e; decide
+  split
+  · left; rename_i e; simp at e; subst e; decide
+  · right
+    rename_i e1 e2 e3 e4 e5 e6 e7 e8 e9 e10 e11
+    simp at e1 e2 e3 e9
+    refine ⟨rfl, by simpa using e1, by omega, e2, e3, by omega, by omega, by omega⟩
+
+theorem lexAux_plain_double (f : Nat) (acc : List Nat) (b0 : UInt8) (t : Bytes) (r w : Nat)
+    (hd : Utf8.decodeRune (b0 :: t) = (r, w))
+    (h2 : r ≠ 34) (h4 : r ≠ 92) (h6 : r ≠ 10) (h7 : r ≠ 13) :
+    lexAux .double (f+1) acc (b0 :: t) = lexAux .double f (acc ++ [r]) ((b0 :: t).drop (max w 1)) := by
+  simp only [lexAux, hd]
+  simp [Quote.byte, h2, h4, h6, h7]
+
+theorem lex_json_aux (rest : Bytes) : ∀ n (s : Bytes), s.length ≤ n →
+    ∀ f1 f2 f3 acc, s.length ≤ f1 → s.length ≤ f2 → (jsonStringBodyAux f1 s ++ 34 :: rest).length < f3 →
+    lexAux .double f3 acc (jsonStringBodyAux f1 s ++ 34 :: rest) = .ok (acc ++ Utf8.runesAux f2 s) rest := by
+  intro n
+  induction n with
+  | zero =>
+    intro s hs f1 f2 f3 acc _ _ h3
+    have : s = [] := List.length_eq_zero_iff.mp (by omega)
+    subst this
+    obtain ⟨g3, rfl⟩ : ∃ g, f3 = g + 1 := ⟨f3 - 1, by omega⟩
+    simpa [jsonBody_nil, runesAux_nil, Quote.byte] using lexAux_quote .double g3 acc rest
+  | succ m ih =>
+    intro s hs f1 f2 f3 acc h1 h2 h3
+    rcases s with _ | ⟨b0, t⟩
+    · obtain ⟨g3, rfl⟩ : ∃ g, f3 = g + 1 := ⟨f3 - 1, by omega⟩
+      simpa [jsonBody_nil, runesAux_nil, Quote.byte] using lexAux_quote .double g3 acc rest
+    · simp only [List.length_cons] at hs h1 h2
+      obtain ⟨g1, rfl⟩ : ∃ g, f1 = g + 1 := ⟨f1 - 1, by omega⟩
+      obtain ⟨g2, rfl⟩ : ∃ g, f2 = g + 1 := ⟨f2 - 1, by omega⟩
+      obtain ⟨g3, rfl⟩ : ∃ g, f3 = g + 1 := ⟨f3 - 1, by omega⟩
+      have hw := decodeRune_width b0 t
+      rw [jsonBody_step] at h3 ⊢
+      rw [runesAux_step]
+      generalize hd : Utf8.decodeRune (b0 :: t) = d at *
+      obtain ⟨r, w⟩ := d
+      simp only [List.length_cons] at hw
+      have hmax : max w 1 = w := by omega
+      simp only [hmax] at h3 ⊢
+      have hlen' : ((b0 :: t).drop w).length = t.length + 1 - w := by simp
+      have hlen : ((b0 :: t).drop w).length ≤ m := by omega
+      rcases jsonRune_cases r ((b0 :: t).take w) (r == Utf8.runeError && decide (w ≤ 1))
+          (by intro h; simp at h; exact h.1) with hA | ⟨hB, hinv, r20, n34, n92, _⟩
+      · generalize jsonRune r ((b0 :: t).take w) (r == Utf8.runeError && decide (w ≤ 1)) = rp at *
+        obtain ⟨body, rfl, hesc, _⟩ := escOK_sound r rp hA
+        simp only [List.cons_append, List.append_assoc, List.length_cons, List.length_append] at h3 ⊢
+        rw [lexAux_bs .double g3 acc _ r _ (hesc _) (by simp; omega)]
+        rw [ih _ hlen g1 g2 g3 (acc ++ [r]) (by omega) (by omega) (by simp; omega)]
+        simp
+      · rw [hB] at h3 ⊢
+        have hv : ¬ (r = Utf8.runeError ∧ w ≤ 1) := by
+          intro ⟨e1, e2⟩; simp [e1, e2] at hinv
+        have hdec := decodeRune_take_valid b0 t (jsonStringBodyAux g1 (List.drop w (b0 :: t)) ++ 34 :: rest) r w hd hv
+        have htk : List.take w (b0 :: t) = b0 :: List.take (w - 1) t := by
+          obtain ⟨k, rfl⟩ : ∃ k, w = k + 1 := ⟨w - 1, by omega⟩
+          simp
+        have hl : (List.take w (b0 :: t)).length = w := by simp; omega
+        rw [List.append_assoc]
+        rw [htk, List.cons_append] at hdec ⊢
+        rw [lexAux_plain_double g3 acc b0 _ r w hdec n34 n92 (by omega) (by omega), ← List.cons_append, ← htk, hmax,
+          List.drop_left' hl]
+        rw [ih _ hlen g1 g2 g3 (acc ++ [r]) (by omega) (by omega)
+          (by simp only [List.length_append, List.length_cons, hl] at h3 ⊢; omega)]
+        simp
+
+/-- encoding/json's string output is one double-quoted JS literal with the original value. -/
+theorem jsonString_lex (s rest : Bytes) :
+    lexString .double ((jsonString s).drop 1 ++ rest) = .ok (Utf8.runes s) rest := by
+  unfold lexString jsonString Utf8.runes
+  have e : List.drop 1 ([34] ++ jsonStringBodyAux s.length s ++ [34]) ++ rest
+      = jsonStringBodyAux s.length s ++ 34 :: rest := by simp
+  rw [e]
+  have := lex_json_aux rest s.length s (Nat.le_refl _) s.length s.length
+    ((jsonStringBodyAux s.length s ++ 34 :: rest).length + 1) [] (Nat.le_refl _) (Nat.le_refl _) (Nat.lt_succ_self _)
+  simpa using this
+
+/-- None of `< > &`. -/
+def NoHtml (l : Bytes) : Prop := (60 : UInt8) ∉ l ∧ (62 : UInt8) ∉ l ∧ (38 : UInt8) ∉ l
+
+theorem NoHtml.append {a b : Bytes} (ha : NoHtml a) (hb : NoHtml b) : NoHtml (a ++ b) := by
+  simp only [NoHtml, List.mem_append, not_or] at *
+  exact ⟨⟨ha.1, hb.1⟩, ⟨ha.2.1, hb.2.1⟩, ⟨ha.2.2, hb.2.2⟩⟩
+
+theorem NoHtml.nil : NoHtml [] := by simp [NoHtml]
+
+theorem jsonBody_noHtml : ∀ (f : Nat) (s : Bytes), NoHtml (jsonStringBodyAux f s) := by
+  intro f
+  induction f with
+  | zero => intro s; simp [jsonStringBodyAux, NoHtml]
+  | succ f ih =>
+    intro s
+    rcases s with _ | ⟨b0, t⟩
+    · simp [jsonStringBodyAux, NoHtml]
+    · rw [jsonBody_step]
+      refine NoHtml.append ?_ (ih _)
+      have hw := decodeRune_width b0 t
+      have hmax : max (Utf8.decodeRune (b0 :: t)).2 1 = (Utf8.decodeRune (b0 :: t)).2 := by omega
+      simp only [hmax]
+      rcases jsonRune_cases (Utf8.decodeRune (b0 :: t)).1 ((b0 :: t).take (Utf8.decodeRune (b0 :: t)).2)
+          ((Utf8.decodeRune (b0 :: t)).1 == Utf8.runeError && decide ((Utf8.decodeRune (b0 :: t)).2 ≤ 1))
+          (by intro h; simp at h; exact h.1) with hA | ⟨hB, _, _, _, _, n60, n62, n38⟩
+      · obtain ⟨_, _, _, h⟩ := escOK_sound _ _ hA
+        exact h
+      · rw [hB]
+        by_cases c1 : b0 < 0x80
+        · rw [decodeRune_ascii b0 t c1] at n60 n62 n38 ⊢
+          simp only [List.take_succ_cons, List.take_zero, NoHtml, List.mem_singleton]
+          refine ⟨?_, ?_, ?_⟩ <;> (intro e; subst e; simp at n60 n62 n38)
+        · exact ⟨fun hm => decodeRune_chunk_high b0 t c1 60 hm (by decide),
+            fun hm => decodeRune_chunk_high b0 t c1 62 hm (by decide),
+            fun hm => decodeRune_chunk_high b0 t c1 38 hm (by decide)⟩
+
+theorem jsonString_noHtml (s : Bytes) : NoHtml (jsonString s) := by
+  unfold jsonString
+  exact NoHtml.append (NoHtml.append (by simp [NoHtml]) (jsonBody_noHtml _ _)) (by simp [NoHtml])
+
+theorem jsonString_safe (s : Bytes) :
+    (60 : UInt8) ∉ jsonString s ∧ (62 : UInt8) ∉ jsonString s ∧ (38 : UInt8) ∉ jsonString s :=
+  jsonString_noHtml s
+
+theorem numText_noHtml (t : Bytes) (h : numTextSafe t = true) : NoHtml t := by
+  simpa [numTextSafe, NoHtml, and_assoc] using h
+
+mutual
+  theorem jsonEncode_noHtml : ∀ (v : JVal), numbersSafe v = true → NoHtml (jsonEncode v)
+    | .null, _ => by simp [jsonEncode, NoHtml]
+    | .bool true, _ => by simp [jsonEncode, NoHtml]
+    | .bool false, _ => by simp [jsonEncode, NoHtml]
+    | .num t, h => by simpa [jsonEncode] using numText_noHtml t (by simpa [numbersSafe] using h)
+    | .str s, _ => by simpa [jsonEncode] using jsonString_noHtml s
+    | .arr xs, h => by
+      rw [jsonEncode]
+      exact NoHtml.append (NoHtml.append (by simp [NoHtml]) (jsonEncodeList_noHtml xs (by simpa [numbersSafe] using h)))
+        (by simp [NoHtml])
+    | .obj kvs, h => by
+      rw [jsonEncode]
+      exact NoHtml.append (NoHtml.append (by simp [NoHtml]) (jsonEncodeFields_noHtml kvs (by simpa [numbersSafe] using h)))
+        (by simp [NoHtml])
+  theorem jsonEncodeList_noHtml : ∀ (xs : List JVal), numbersSafeList xs = true → NoHtml (jsonEncodeList xs)
+    | [], _ => by simp [jsonEncodeList, NoHtml]
+    | [x], h => by
+      rw [jsonEncodeList]
+      exact jsonEncode_noHtml x (by simpa [numbersSafeList] using h)
+    | x :: y :: ys, h => by
+      have e : jsonEncodeList (x :: y :: ys) = jsonEncode x ++ [44] ++ jsonEncodeList (y :: ys) := by
+        rw [jsonEncodeList]; simp
+      rw [e]
+      simp only [numbersSafeList, Bool.and_eq_true] at h
+      exact NoHtml.append (NoHtml.append (jsonEncode_noHtml x h.1) (by simp [NoHtml]))
+        (jsonEncodeList_noHtml (y :: ys) (by simp [numbersSafeList, h.2]))
+  theorem jsonEncodeFields_noHtml : ∀ (kvs : List (Bytes × JVal)), numbersSafeFields kvs = true →
+      NoHtml (jsonEncodeFields kvs)
+    | [], _ => by simp [jsonEncodeFields, NoHtml]
+    | [(k, v)], h => by
+      rw [jsonEncodeFields]
+      exact NoHtml.append (NoHtml.append (jsonString_noHtml k) (by simp [NoHtml]))
+        (jsonEncode_noHtml v (by simpa [numbersSafeFields] using h))
+    | (k, v) :: y :: ys, h => by
+      have e : jsonEncodeFields ((k, v) :: y :: ys) =
+          jsonString k ++ [58] ++ jsonEncode v ++ [44] ++ jsonEncodeFields (y :: ys) := by
+        rw [jsonEncodeFields]; simp
+      rw [e]
+      simp only [numbersSafeFields, Bool.and_eq_true] at h
+      exact NoHtml.append (NoHtml.append (NoHtml.append (NoHtml.append (jsonString_noHtml k) (by simp [NoHtml]))
+        (jsonEncode_noHtml v h.1)) (by simp [NoHtml])) (jsonEncodeFields_noHtml (y :: ys) (by simp [numbersSafeFields, h.2]))
+end
+
+theorem jsonEncode_safe (v : JVal) (h : numbersSafe v = true) :
+    (60 : UInt8) ∉ jsonEncode v ∧ (62 : UInt8) ∉ jsonEncode v ∧ (38 : UInt8) ∉ jsonEncode v :=
+  jsonEncode_noHtml v h
 
 end TemplVerif.Proofs.Js
